@@ -1,14 +1,29 @@
 // Builds a real OptionContext from option tokens (shared by op / oa / of components):
 //   o:<hexname>:<alias>:<props>[:<heximpl|~>:<hexdefault|~>:<hexarg|~>:<hexdesc|~>:<level>:<group>:<kind>]
-//   props: i implicit, f flag, n negatable, c composing; kind: 0 int, 1 string, 2 flag, 3 vector<int>
+//   props: i implicit, f flag, n negatable, c composing; kind: 0 int, 1 string, 2 flag (store_true), 3 vector<int>,
+//   4 custom notifier (refuses strings starting with 'x'), 5 ValueMap int, 6 mapped enum (no/yes/maybe/auto -> 0/1/2/7),
+//   7 flag (store_false), 8 notified int (kept only when >= 0)
 #pragma once
 #include "util.h"
 #include <potassco/program_opts/program_options.h>
 #include <potassco/program_opts/typed_value.h>
+#include <potassco/program_opts/mapped_value.h>
 #include <deque>
 #include <cstdlib>
 namespace hv {
+enum HvEnum { hv_no = 0, hv_yes = 1, hv_maybe = 2, hv_auto = 7 };
 struct OptCtx {
+	struct Log { std::vector<std::string> strs; };
+	struct NLog { std::vector<int> seen; int* kept; NLog() : kept(0) {} ~NLog() { delete kept; } };
+	static bool customNotify(Log* l, const std::string&, const std::string& v) { l->strs.push_back(v); return v.empty() || v[0] != 'x'; }
+	static bool intNotify(NLog* l, const std::string&, const int* v) {
+		l->seen.push_back(*v);
+		if (l->kept == v) return true;           // already ours (the value parses in place from now on)
+		if (*v >= 0 && !l->kept) { l->kept = const_cast<int*>(v); return true; }
+		return false;
+	}
+	Potassco::ProgramOptions::ValueMap vmap;
+	std::deque<Log> logs; std::deque<NLog> nlogs;
 	Potassco::ProgramOptions::OptionContext ctx;
 	std::deque<std::string> strs;                 // storage for const char* descriptions
 	std::deque<int> ints; std::deque<std::string> svals; std::deque<char> flags; std::deque<std::vector<int> > vecs;
@@ -28,7 +43,16 @@ struct OptCtx {
 		if (kind == 0) { ints.push_back(-777); targets.push_back(&ints.back()); v = storeTo(ints.back()); }
 		else if (kind == 1) { svals.push_back("<unset>"); targets.push_back(&svals.back()); v = storeTo(svals.back()); }
 		else if (kind == 2) { flags.push_back(2); targets.push_back(&flags.back()); v = storeTo(reinterpret_cast<bool&>(flags.back()), store_true.parser()); (void)dummyB; }
-		else { vecs.push_back(std::vector<int>()); targets.push_back(&vecs.back()); v = storeTo(vecs.back()); }
+		else if (kind == 3) { vecs.push_back(std::vector<int>()); targets.push_back(&vecs.back()); v = storeTo(vecs.back()); }
+		else if (kind == 4) { logs.push_back(Log()); targets.push_back(&logs.back()); v = notify(&logs.back(), &OptCtx::customNotify); }
+		else if (kind == 5) { targets.push_back(0); v = store<int>(vmap); }
+		else if (kind == 6) {
+			static bool init = false;
+			if (!init) { values<HvEnum>()("no", hv_no)("yes", hv_yes)("maybe", hv_maybe)("auto", hv_auto); init = true; }
+			ints.push_back(-777); targets.push_back(&ints.back()); v = storeTo(ints.back(), values<HvEnum>());
+		}
+		else if (kind == 7) { flags.push_back(2); targets.push_back(&flags.back()); v = storeTo(reinterpret_cast<bool&>(flags.back()), store_false.parser()); }
+		else { nlogs.push_back(NLog()); targets.push_back(&nlogs.back()); v = notify<int>(&nlogs.back(), &OptCtx::intNotify); }
 		kinds.push_back(kind);
 		if (props.find('f') != std::string::npos) v->flag();
 		if (props.find('i') != std::string::npos) v->implicit(t.size() > 4 && t[4] != "~" ? keep(unhex(t[4])) : "");
